@@ -911,7 +911,26 @@ def envelope_chunk(repo: Repo, rep, P: str, tables):
                     parts.append(("zeros" if set(b) <= {0} else "const", len(b), [repr(b)]))
                 except (NotConst, TypeError):
                     parts.append(("unknown", -1, [norm(v)]))
-    if accumulated:
+    # pieces collected in a list and joined at the end: `parts = [a, b]; for …: parts.append(p); yield CHDT, b"".join(parts)`
+    lvar = None
+    if isinstance(pl, ast.Call) and isinstance(pl.func, ast.Attribute) and pl.func.attr == "join" and isinstance(pl.func.value, ast.Constant) \
+            and pl.func.value.value == b"" and len(pl.args) == 1 and isinstance(pl.args[0], ast.Name) and isinstance(wdefs.get(pl.args[0].id), (ast.List, ast.Tuple)):
+        lvar = pl.args[0].id
+    if lvar is not None:
+        for x in wdefs[lvar].elts:
+            take(x)
+        for st in stmts_of(wfn):
+            if isinstance(st, ast.Expr) and isinstance(st.value, ast.Call) and norm(st.value.func) == f"{lvar}.append" and len(st.value.args) == 1:
+                take(st.value.args[0])
+            elif isinstance(st, ast.AugAssign) and norm(st.target) == lvar and isinstance(st.value, (ast.List, ast.Tuple)):
+                for x in st.value.elts:
+                    take(x)
+            elif isinstance(st, ast.For) and any(isinstance(c, ast.Call) and norm(c.func) in (f"{lvar}.append", f"{lvar}.extend") for c in ast.walk(st)):
+                loop_part = st
+            elif any(isinstance(n, ast.Name) and n.id == lvar for n in ast.walk(st)) and not (isinstance(st, ast.Assign) and norm(st.targets[0]) == lvar) \
+                    and not (isinstance(st, ast.Expr) and isinstance(st.value, ast.Yield)):
+                parts.append(("unknown", -1, [norm(st)[:60]]))
+    elif accumulated:
         for st in stmts_of(wfn):
             if isinstance(st, ast.Assign) and norm(st.targets[0]) == dvar:
                 take(st.value)
